@@ -194,3 +194,42 @@ def sim_awrite_poll(state, script_iter):
         if n == 0:
             return "err"
         state[0] += n
+
+
+# ---------------------------------------------------------------- constructor variants
+# `new(io)` is `with_buffer(io, Vec::new())`; a caller may hand any vector to `with_buffer`.  The harness ops
+# `freadb` / `fwriteb` / `areadb` / `awriteb <ctor> …` construct with `with_buffer` and an empty (`e`), an empty
+# pre-allocated (`c`) or a dirty (`d`: 37 bytes, `D`: 613 bytes) buffer.  The model and the oracles know one
+# behaviour only: a variant must behave exactly like the plain op; the one visible difference allowed is that a
+# dirty buffer nobody wrote to still has its initial length at the end.
+import zlib
+CTORS = "ecdD"
+CTOR_DIRTY = {"d": 37, "D": 613}
+CTOR_OPS = {"freadb": "fread", "fwriteb": "fwrite", "areadb": "aread", "awriteb": "awrite"}
+
+
+def ctor_expand(ops, every=4):
+    extra = []
+    for op in ops:
+        h = zlib.crc32(op.encode())
+        if h % every == 0:
+            name, rest = op.split(" ", 1)
+            extra.append(f"{name}b {CTORS[(h // every) % 4]} {rest}")
+    return ops + extra
+
+
+def ctor_plain(op):
+    w = op.split(" ", 2)
+    if w[0] in CTOR_OPS and len(w) == 3:
+        return f"{CTOR_OPS[w[0]]} {w[2]}", w[1]
+    return op, None
+
+
+def ctor_judge(judge):
+    def j(op, impl, model, spec):
+        plain, c = ctor_plain(op)
+        if c in CTOR_DIRTY and isinstance(impl, str) and isinstance(model, str):
+            if " buf=0" in model + " " and f" buf={CTOR_DIRTY[c]}" in impl:
+                impl = impl.replace(f" buf={CTOR_DIRTY[c]}", " buf=0")
+        return judge(plain, impl, model, spec)
+    return j
